@@ -13,6 +13,10 @@ Ltac dobj o :=
   let xc := fresh "xc" in let xb := fresh "xb" in let xa := fresh "xa" in let xv := fresh "xv" in
   let xq := fresh "xq" in destruct o as [xt xf xl xd xc xb xa xv xq].
 
+(* arithmetic on lengths written in another order in the source (len(x) + 4 for 4 + len(x), ...) is the same number *)
+Ltac norm_len :=
+  try rewrite (N.add_comm (lenN _) _); try rewrite (N.mul_comm (lenN _) _); try rewrite (N.add_comm (_ * _) _).
+
 (* ---- class-level constants ---------------------------------------------------------------- *)
 Lemma message_type_is_model k : class_messageType k = fn_of_kind k.
 Proof. destruct k; reflexivity. Qed.
@@ -35,7 +39,7 @@ Proof.
   destruct (put xt) as [t|]; [|reflexivity].
   destruct (put xf) as [f|]; [|reflexivity].
   cbn [bind bvlciType bvlciFunction bvlciLength pduData set_pduData].
-  destruct (negb _); [reflexivity|].
+  norm_len. destruct (negb _); [reflexivity|].
   cbn [bind bvlciType bvlciFunction bvlciLength pduData set_pduData].
   now rewrite <- !app_assoc.
 Qed.
@@ -78,7 +82,7 @@ Proof.
   cbn [get bind set_pduData set_bvlciFunction bvlciType pduData bvlciFunction bvlciLength bvlciResultCode bvlciBDT bvlciAddress bvlciTimeToLive bvlciFDT].
   destruct r as [|hi [|lo r]]; [reflexivity|reflexivity|].
   cbn [get_short bind set_pduData set_bvlciLength bvlciType pduData bvlciFunction bvlciLength bvlciResultCode bvlciBDT bvlciAddress bvlciTimeToLive bvlciFDT].
-  destruct (negb _); [reflexivity|].
+  norm_len. destruct (negb _); [reflexivity|].
   cbn [bind pduData]. rewrite get_data_all.
   reflexivity.
 Qed.
@@ -134,46 +138,46 @@ Lemma class_encode_is_model k self b :
 Proof.
   destruct k; unfold class_encode, enc_self, msg_of_obj, enc_body, enc_len.
   - (* Result *)
-    dobj self; dobj b. unfold Result_encode. rewrite BVLCI_update_is_model. unfold py_put_short_OZ.
+    dobj self; dobj b. unfold Result_encode. rewrite BVLCI_update_is_model. norm_len. unfold py_put_short_OZ.
     cbn [bind bvlciResultCode]. destruct (put_short_o xc); reflexivity.
   - (* WriteBDT *)
-    dobj self; dobj b. unfold WriteBroadcastDistributionTable_encode. rewrite BVLCI_update_is_model.
-    cbn [bind bvlciBDT bvlciLength set_bvlciLength].
+    dobj self; dobj b. unfold WriteBroadcastDistributionTable_encode. rewrite BVLCI_update_is_model. norm_len.
+    cbn [bind bvlciBDT bvlciLength set_bvlciLength]. norm_len.
     apply (py_for_enc enc_bdte enc_bdt); [reflexivity|reflexivity|].
     intros e s b'. cbv beta iota. apply enc_bdte_body.
   - (* ReadBDT *)
-    dobj self; dobj b. unfold ReadBroadcastDistributionTable_encode. rewrite BVLCI_update_is_model.
+    dobj self; dobj b. unfold ReadBroadcastDistributionTable_encode. rewrite BVLCI_update_is_model. norm_len.
     cbn. unfold py_append. cbn. now rewrite app_nil_r.
   - (* ReadBDTAck *)
-    dobj self; dobj b. unfold ReadBroadcastDistributionTableAck_encode. rewrite BVLCI_update_is_model.
-    cbn [bind bvlciBDT bvlciLength set_bvlciLength].
+    dobj self; dobj b. unfold ReadBroadcastDistributionTableAck_encode. rewrite BVLCI_update_is_model. norm_len.
+    cbn [bind bvlciBDT bvlciLength set_bvlciLength]. norm_len.
     apply (py_for_enc enc_bdte enc_bdt); [reflexivity|reflexivity|].
     intros e s b'. cbv beta iota. apply enc_bdte_body.
   - (* Forwarded *)
-    dobj self; dobj b. unfold ForwardedNPDU_encode. rewrite BVLCI_update_is_model.
+    dobj self; dobj b. unfold ForwardedNPDU_encode. rewrite BVLCI_update_is_model. norm_len.
     unfold py_put_data_obytes, py_put_data_bytes, py_append.
     cbn [bind bvlciAddress pduData set_bvlciLength bvlciLength].
     destruct xa; cbn [py_addrAddr_addr addr_bytes bind]; try reflexivity.
     cbn. now rewrite <- app_assoc.
   - (* RegisterFD *)
-    dobj self; dobj b. unfold RegisterForeignDevice_encode. rewrite BVLCI_update_is_model. unfold py_put_short_OZ.
+    dobj self; dobj b. unfold RegisterForeignDevice_encode. rewrite BVLCI_update_is_model. norm_len. unfold py_put_short_OZ.
     cbn [bind bvlciTimeToLive]. destruct (put_short_o xv); reflexivity.
   - (* ReadFDT *)
-    dobj self; dobj b. unfold ReadForeignDeviceTable_encode. rewrite BVLCI_update_is_model.
+    dobj self; dobj b. unfold ReadForeignDeviceTable_encode. rewrite BVLCI_update_is_model. norm_len.
     cbn. unfold py_append. cbn. now rewrite app_nil_r.
   - (* ReadFDTAck *)
-    dobj self; dobj b. unfold ReadForeignDeviceTableAck_encode. rewrite BVLCI_update_is_model.
+    dobj self; dobj b. unfold ReadForeignDeviceTableAck_encode. rewrite BVLCI_update_is_model. norm_len.
     cbn [bind bvlciFDT bvlciLength set_bvlciLength].
     apply (py_for_enc enc_fdte enc_fdt); [reflexivity|reflexivity|].
     intros e s b'. cbv beta iota. apply enc_fdte_body.
   - (* DeleteFDT *)
-    dobj self; dobj b. unfold DeleteForeignDeviceTableEntry_encode. rewrite BVLCI_update_is_model.
+    dobj self; dobj b. unfold DeleteForeignDeviceTableEntry_encode. rewrite BVLCI_update_is_model. norm_len.
     unfold py_put_data_obytes, py_append.
     cbn [bind bvlciAddress pduData set_bvlciLength bvlciLength].
     destruct xa; cbn [py_addrAddr_addr addr_bytes bind]; reflexivity.
-  - dobj self; dobj b. unfold DistributeBroadcastToNetwork_encode. rewrite BVLCI_update_is_model. reflexivity.
-  - dobj self; dobj b. unfold OriginalUnicastNPDU_encode. rewrite BVLCI_update_is_model. reflexivity.
-  - dobj self; dobj b. unfold OriginalBroadcastNPDU_encode. rewrite BVLCI_update_is_model. reflexivity.
+  - dobj self; dobj b. unfold DistributeBroadcastToNetwork_encode. rewrite BVLCI_update_is_model. norm_len. reflexivity.
+  - dobj self; dobj b. unfold OriginalUnicastNPDU_encode. rewrite BVLCI_update_is_model. norm_len. reflexivity.
+  - dobj self; dobj b. unfold OriginalBroadcastNPDU_encode. rewrite BVLCI_update_is_model. norm_len. reflexivity.
 Qed.
 
 (* ---- the decoders' table loops: any `while b.pduData:` loop whose body does per entry what the
